@@ -32,7 +32,7 @@ type concurrentTxn struct {
 func NewConcurrentTxnFrom(ctx context.Context, rootstore corekv.TxnStore, id uint64, readonly bool) *BasicTxn {
 	rootTxn := rootstore.NewTxn(readonly)
 	rootConcurentTxn := &concurrentTxn{Txn: rootTxn}
-	multistore := NewMultistore(rootTxn)
+	multistore := NewMultistore(rootConcurentTxn)
 
 	return &BasicTxn{
 		Multistore: multistore,
@@ -63,6 +63,60 @@ func (t *concurrentTxn) Set(ctx context.Context, key []byte, value []byte) error
 	t.mu.Lock()
 	defer t.mu.Unlock()
 	return t.Txn.Set(ctx, key, value)
+}
+
+func (t *concurrentTxn) Iterator(ctx context.Context, opts corekv.IterOptions) (corekv.Iterator, error) {
+	t.mu.Lock()
+	defer t.mu.Unlock()
+	iter, err := t.Txn.Iterator(ctx, opts)
+	if err != nil {
+		return nil, err
+	}
+	return &concurrentIterator{iter: iter, mu: &t.mu}, nil
+}
+
+// concurrentIterator guards an iterator of a concurrentTxn with the transaction's mutex.
+type concurrentIterator struct {
+	iter corekv.Iterator
+	mu   *sync.Mutex
+}
+
+var _ corekv.Iterator = (*concurrentIterator)(nil)
+
+func (i *concurrentIterator) Next() (bool, error) {
+	i.mu.Lock()
+	defer i.mu.Unlock()
+	return i.iter.Next()
+}
+
+func (i *concurrentIterator) Key() []byte {
+	i.mu.Lock()
+	defer i.mu.Unlock()
+	return i.iter.Key()
+}
+
+func (i *concurrentIterator) Value() ([]byte, error) {
+	i.mu.Lock()
+	defer i.mu.Unlock()
+	return i.iter.Value()
+}
+
+func (i *concurrentIterator) Seek(key []byte) (bool, error) {
+	i.mu.Lock()
+	defer i.mu.Unlock()
+	return i.iter.Seek(key)
+}
+
+func (i *concurrentIterator) Reset() {
+	i.mu.Lock()
+	defer i.mu.Unlock()
+	i.iter.Reset()
+}
+
+func (i *concurrentIterator) Close() error {
+	i.mu.Lock()
+	defer i.mu.Unlock()
+	return i.iter.Close()
 }
 
 // Sync executes the transaction.
